@@ -18,6 +18,7 @@ ROOT = os.path.dirname(os.path.dirname(os.path.abspath(__file__)))
 REPO = os.environ.get("VERIF_REPO", "/repo")
 TARGET = os.path.join(ROOT, "target")
 NWORKERS = int(os.environ.get("VERIF_WORKERS", "16"))
+FIXED_ENV = {"JAWK_VF_A": "alpha", "JAWK_VF_E": "", "JAWK_VF_U": "\u00fc\u00f1\u00ed"}
 
 
 # --------------------------------------------------------------------------
@@ -312,8 +313,11 @@ class Driver:
         self.isolated_reruns = 0
 
     def _start(self):
+        env = dict(self.env if self.env is not None else os.environ)
+        env.update(FIXED_ENV)
+        env.pop("JAWK_VF_MISSING", None)
         self.proc = subprocess.Popen(self.wrapper + [self.path, "serve"], stdin=subprocess.PIPE,
-                                     stdout=subprocess.PIPE, stderr=subprocess.DEVNULL, env=self.env)
+                                     stdout=subprocess.PIPE, stderr=subprocess.DEVNULL, env=env)
 
     def close(self):
         if self.proc is not None:
